@@ -8,8 +8,10 @@ using namespace vf;
 static Scratch g_scr;
 
 // a wild comment line: blank* c text, text over the full printable alphabet
-static std::string wild_comment(Src &s, const GFile &f, bool allow_indent, bool &indented, int &ncc, bool &structural) {
+static std::string wild_comment(Src &s, const GFile &f0, bool allow_indent, bool &indented, int &ncc, bool &structural) {
   static const Alphabet any = make_alphabet("");
+  GFile f = f0;
+  if (f.C.empty()) f.C = "#";
   std::string ind = allow_indent && s.chance(40) ? gen_blanks(s, 1, 3) : "";
   indented = !ind.empty();
   char c = f.C[s.below((uint32_t)f.C.size())];
@@ -106,6 +108,11 @@ static void run(Src &s) {
     if (optset & 2) o.header_trail = false;  // under PYTHON_STYLE text after a value/header is not a comment
   }
   GFile f = gen_file(s, o);
+  // an empty comment argument selects the default '#': every entry point has to treat it the same way
+  if (f.C == "#" && s.chance(15)) {
+    f.C = "";
+    g_case.tag("empty_comment_argument");
+  }
   Model m = f.model();
   bool comments_only = f.lines.empty() || s.chance(6);
 
